@@ -32,6 +32,16 @@ LOGDIR = os.path.join(BIN, ".build")
 GOENV = dict(os.environ, GOFLAGS="-mod=mod", GOPROXY="off", GOSUMDB="off", GOTOOLCHAIN="local",
              CGO_ENABLED=os.environ.get("CGO_ENABLED", "1"))
 
+# which Go harness module (directory under /verif) serves which property
+HARNESS = {"C10": "harness_pipe", "C11": "harness_pipe",
+           "C12": "harness_gpkg", "C13": "harness_gpkg",
+           "C14": "harness_tms", "C15": "harness_tms", "C16": "harness_tms"}
+
+
+def harness_dir(pid):
+    return HARNESS.get(pid, "harness")
+
+
 FORBIDDEN = re.compile(r"\b(Admitted|admit|Axiom|Axioms|Parameter|Parameters|Conjecture|Hypothesis|Variable)\b|Unset Guard|bypass_check|Admit Obligations|type-in-type|impredicative-set")
 
 
